@@ -274,6 +274,132 @@ class Fn:
                 seen.add(n)
                 dq.append(n)
         return seen
+    # ---- feasibility: correlated branches on values built in this body -------------------
+    _STD_VARIANTS = {"Ok": 0, "Err": 1, "None": 0, "Some": 1, "Continue": 0, "Break": 1}
+
+    def _variant_index(self, adt, variant):
+        a = self.db.adts.get(adt) if self.db is not None else None
+        if a is not None:
+            for i, v in enumerate(a.get("variants", [])):
+                if v.get("name") == variant:
+                    return v.get("discr", i) if isinstance(v.get("discr", i), int) else i
+        if re.search(r"(^|::)(Result|Option|ControlFlow)$", adt or "") and variant in self._STD_VARIANTS:
+            return self._STD_VARIANTS[variant]
+        return None
+
+    def feasible_blocks_from(self, start_bb):
+        """Blocks reachable from the head of `start_bb` when branches on values *constructed on the way* are followed
+        consistently: a local assigned `Err(..)` / `Ok(..)` / `true` / `false` on the path keeps that variant through moves,
+        `Try::branch`, `discriminant()`, and a switch on it takes only the matching edge.  Everything not tracked is
+        unknown (all edges feasible): the result over-approximates the feasible paths and is a subset of plain reachability."""
+        # locals that are ever mutably borrowed (or whose address is taken) can change variant behind the analysis' back
+        # (`opt.take()`): never tracked
+        volatile = getattr(self, "_volatile", None)
+        if volatile is None:
+            volatile = set()
+            for _site, s in self.stmts():
+                if s["k"] == "assign" and s["rv"]["k"] in ("ref", "rawptr") and (s["rv"].get("mut") or s["rv"]["k"] == "rawptr"):
+                    volatile.add(s["rv"]["p"][0])
+            self._volatile = volatile
+        states = {start_bb: {}}
+        work = deque([start_bb])
+        def join(a, b):
+            return {k: v for k, v in a.items() if b.get(k) == v}
+        def simple(op):
+            pl = op_place(op)
+            if pl is not None and not pl[1]:
+                return pl[0]
+            return None
+        while work:
+            bb = work.popleft()
+            st = dict(states[bb])
+            b = self.blocks[bb]
+            for s in b["stmts"]:
+                if s["k"] != "assign":
+                    continue
+                l, proj = s["lhs"]
+                if proj:
+                    if "*" in proj:
+                        pass
+                    continue
+                rv = s["rv"]
+                val = None
+                if rv["k"] == "agg" and rv.get("kind") == "adt" and rv.get("variant") is not None:
+                    vi = self._variant_index(rv.get("adt"), rv.get("variant"))
+                    if vi is not None:
+                        val = ("v", vi)
+                elif rv["k"] == "use":
+                    op = rv["op"]
+                    if op.get("k") == "const" and op.get("val") in ("true", "false") and op.get("ty") == "bool":
+                        val = ("i", 1 if op["val"] == "true" else 0)
+                    else:
+                        src = simple(op)
+                        if src is not None and src in st:
+                            val = st[src]
+                elif rv["k"] == "disc":
+                    src = rv.get("p")
+                    if src is not None and not src[1] and st.get(src[0], (None,))[0] == "v":
+                        val = ("i", st[src[0]][1])
+                elif rv["k"] == "un" and rv.get("op") == "Not":
+                    src = simple(rv["a"])
+                    if src is not None and st.get(src, (None,))[0] == "i":
+                        val = ("i", 1 - st[src][1])
+                if val is None or l in volatile:
+                    st.pop(l, None)
+                else:
+                    st[l] = val
+            t = b["term"]
+            succs = list(self.bsucc(bb))
+            if t["k"] == "call":
+                d, dproj = t["dest"]
+                val = None
+                fnc = t.get("func") or {}
+                info = fnc.get("fn") if fnc.get("k") == "const" else None
+                name = (info or {}).get("def") or ""
+                if not dproj and re.search(r"ops::Try>?::branch$|ops::try_trait::Try::branch$", name) and t["args"]:
+                    src = simple(t["args"][0])
+                    if src is not None and st.get(src, (None,))[0] == "v":
+                        val = ("v", st[src][1])       # Ok/Some -> Continue (0), Err/None -> Break (1): same index
+                        ty = self.local_ty(src)
+                        if "Option<" in ty.split("::")[-1] or re.match(r"(std|core)::option::Option<", ty):
+                            val = ("v", 1 - st[src][1])   # None(0) -> Break(1), Some(1) -> Continue(0)
+                if not dproj:
+                    if val is None or d in volatile:
+                        st.pop(d, None)
+                    else:
+                        st[d] = val
+                # a call may write through any &mut it was given: forget locals whose address was taken (conservative: all
+                # locals passed by reference are temporaries of refs, the tracked locals are only ever moved)
+            elif t["k"] == "switch":
+                src = simple(t["discr"])
+                if src is not None and st.get(src, (None,))[0] == "i":
+                    want = st[src][1]
+                    tgt = None
+                    for v, x in t["targets"]:
+                        try:
+                            if int(v) == want:
+                                tgt = x
+                        except ValueError:
+                            pass
+                    if tgt is None:
+                        tgt = t.get("otherwise")
+                    if tgt is not None:
+                        succs = [tgt]
+            elif t["k"] == "yield":
+                d, dproj = t["resume_arg"]
+                if not dproj:
+                    st.pop(d, None)
+            for n in succs:
+                if n not in states:
+                    states[n] = dict(st)
+                    work.append(n)
+                else:
+                    j = join(states[n], st)
+                    if j != states[n]:
+                        states[n] = j
+                        work.append(n)
+        return set(states)
+
     def entry(self):
         return Site(0, 0)
     def can_reach(self, a, b, no_sites=(), no_edges=()):
@@ -887,6 +1013,7 @@ class DB:
     def __init__(self, tag, files, inline=None):
         self.tag = tag
         self.view = inline or "base"
+        self.inline_mode = inline
         self.fns = {}
         self.adts = {}
         self.impls = []
